@@ -389,6 +389,12 @@ def check_max(prog: Program, res: Result) -> None:
 
 
 def check(prog: Program, res: Result) -> None:
+    from . import _batch
+    _batch.check_every_iteration_accumulates(prog, res, "C01-max", ["sleap_nn.data.confidence_maps:make_multi_confmaps"])
+    # the cached sample a dataset hands out is never written through (a second read of the same index must give the same
+    # targets): shared with C11-cache
+    from . import c11 as _c11
+    res.borrow(lambda p_, r_: _c11.check_cache(p_, r_, _c11.make_alias(p_)), "C01-cache", prog)
     check_nan(prog, res)
     check_range(prog, res)
     check_sigma(prog, res)
